@@ -57,6 +57,27 @@ def externals(reg):
                  modifies="ALL", preserves=EVENT_OBJECTS + ["self", "detail"], result_type="none",
                  ghost={"n_sfn": "n_sfn + 1"})
     reg.external("self.asl_store.get_cached_view", ["key", "default"], modifies=None, result_type="any")
+    # branch_has_terminated as seen by a handler: either the branch is live (nothing observable happens, the event id is
+    # recorded with its join) or it has been terminated, in which case the event is dropped: acknowledged (for states
+    # other than Parallel / Map) with nothing to hand over -- "issued" by definition (DESIGN A.7)
+    for g, t in (("n_bht", "int"), ("bht_result", "val")):
+        reg.ghost(g, t)
+    reg.contract(
+        E.SE + "StateEngine.branch_has_terminated",
+        types={"self": "obj", "state_type": "str", "context": "dict", "id": "any", "timeout": "any"},
+        ghost={"n_bht": "n_bht + 1", "bht_result": "retval"},
+        ghost_modifies=["n_ack", "ack_id", "acked", "issued", "held", "n_cancel", "released", "n_rmcanceller"],
+        ensures=[("result-is-a-flag", "isstr(result) or isnone(result) or isbool(result)"),
+                 ("dropped-is-acked", "implies(istrue(result) and state_type != 'Parallel' and state_type != 'Map' and same(id, cur_id), "
+                                      "acked and issued)"),
+                 ("live-is-silent", "implies(not istrue(result), n_ack == old(n_ack) and acked == old(acked) and issued == old(issued) "
+                                    "and n_cancel == old(n_cancel) and released == old(released))"),
+                 ("ack-monotone", "implies(old(acked), acked)"), ("issued-monotone", "implies(old(issued), issued)"),
+                 ("held-monotone", "implies(old(held), held)"), ("released-monotone", "implies(old(released), released)")],
+        modifies="ALL", preserves="PROTECTED", raises={},
+        assumes=["branch_has_terminated (real body not yet under contract): drops and acknowledges the events of terminated "
+                 "branches, records the ids of live ones, touches only join metadata; BranchMetadata construction does not raise "
+                 "for an engine-written StartTime"])
     # parse_rfc3339_datetime as seen by callers: an opaque datetime whose .timestamp() is INSTANT(text) (C08)
     reg.contract(E.SE + "parse_rfc3339_datetime", pure=True,
                  ensures=[("instant", "ts(retval) == INSTANT(rfc3339)")], result_type="fn",
@@ -154,7 +175,12 @@ def task_delegate_contract():
                                  "same(exec_redelivered, redelivered) and same(exec_context, context) and "
                                  "exec_resource == old(state.get('Resource', '')))"),
         ("C03:one-outcome", "(n_exec_task == old(n_exec_task) + 1 and n_herr == old(n_herr) and n_ack == old(n_ack)) "
-                            "or (n_exec_task == old(n_exec_task) and n_herr == old(n_herr) + 1)"),
+                            "or (n_exec_task == old(n_exec_task) and n_herr == old(n_herr) + 1) "
+                            "or (n_exec_task == old(n_exec_task) and n_herr == old(n_herr) and istrue(bht_result) and acked)"),
+        # C06: a task whose branch was terminated while it waited for its start / retry delay is not started
+        ("C06:terminated-branch-not-started", "implies(n_bht == old(n_bht) + 1 and istrue(bht_result), "
+                                              "n_exec_task == old(n_exec_task) and n_herr == old(n_herr) and n_pub == old(n_pub))"),
+        ("C06:termination-rechecked", "n_bht == old(n_bht) + 1"),
         # C08: the timeout handed to the dispatcher: min(task deadline, execution deadline) - now, never negative,
         # computed from the entry/start instants carried in the context (so redelivery does not extend it)
         # C08: the timeout handed to the dispatcher targets min(task deadline, execution deadline), both computed from
